@@ -1,6 +1,6 @@
 (* Model/DeriveDec.v — what `#[derive(Decode)]` generates (minicbor-derive/src/decode.rs), executed on input.
-   Every step is an M computation, so a failing field decode leaves the position where it stopped: the
-   unknown-variant handler (decode.rs:269-295) continues with `skip()` from exactly there. *)
+   Every step is an M computation (outcome and the state left behind); the unknown-variant handler
+   (decode.rs:269-295) re-positions to the first byte of the field's value before it calls `skip()`. *)
 From MC Require Export DeriveEnc.
 Local Open Scope N_scope.
 
@@ -87,21 +87,28 @@ Definition dec_field_fn (f : field) (fuel : nat) : M value :=
   | CoCustom _ => cust_decode c
   end.
 
-(* decode.rs:316-320: Ok => fill the slot; unknown variant with a handler => skip from where the
-   decoder stopped and leave the slot alone; any other error is returned *)
+(* decode.rs:316-320: Ok => fill the slot; unknown variant with a handler => go back to where the value began
+   (`__d777.set_position(__p779)`: the state before the decode function ran) and skip it as one item, leaving
+   the slot alone; any other error is returned *)
 Definition try_unknown (handler : bool) (m : M value) : M (option value) := fun s =>
   match m s with
   | (Ok v, s') => (Ok (Some v), s')
   | (Err (UnknownVariant n), s') =>
-      if handler then (skip_auto c ;;; ret None) s' else (Err (UnknownVariant n), s')
+      if handler then (skip_auto c ;;; ret None) s else (Err (UnknownVariant n), s')
   | (Err e, s') => (Err e, s')
   | (Panic, s') => (Panic, s')
   | (OutOfFuel, s') => (OutOfFuel, s')
   end.
 
-(* one `#indices => #actions` arm (decode.rs:314-321) *)
+(* one `#indices => #actions` arm (decode.rs:311-346): a tagged optional field (the fields that have the
+   unknown-variant arm) accepts the bare null of an index gap and leaves its slot alone; otherwise tag check,
+   then the decode function *)
 Definition field_action (f : field) (fuel : nat) : M (option value) :=
-  dec_tag_check (f_tag f) ;;; try_unknown (has_handler f) (dec_field_fn f fuel).
+  let action := dec_tag_check (f_tag f) ;;; try_unknown (has_handler f) (dec_field_fn f fuel) in
+  if has_tag f && has_handler f then
+    dt <- datatype ;;
+    if ctype_is_null dt then skip_auto c ;;; ret None else action
+  else action.
 
 Definition slots := list (option value).
 
